@@ -1,0 +1,38 @@
+/* Verification hooks for deterministic simulation (guard SOPLEX_VERIF_HOOKS, off by default).
+ * With the guard off every macro expands to nothing / false and nothing else in this file is visible.
+ */
+#ifndef _SOPLEX_VERIFHOOKS_H_
+#define _SOPLEX_VERIFHOOKS_H_
+
+#ifdef SOPLEX_VERIF_HOOKS
+
+struct SoplexVerifPeek;
+
+extern "C"
+{
+   /* set by the simulator before any solver object exists; never written afterwards */
+   extern void (*soplex_verif_point_fn)(int site);
+   extern int (*soplex_verif_buggify_fn)(int site);
+}
+
+#define SOPLEX_VERIF_POINT(site)   do { if(soplex_verif_point_fn != nullptr) soplex_verif_point_fn(site); } while(false)
+#define SOPLEX_VERIF_BUGGIFY(site) (soplex_verif_buggify_fn != nullptr && soplex_verif_buggify_fn(site) != 0)
+#define SOPLEX_VERIF_FRIEND        friend struct ::SoplexVerifPeek;
+
+#else
+
+#define SOPLEX_VERIF_POINT(site)   do { } while(false)
+#define SOPLEX_VERIF_BUGGIFY(site) (false)
+#define SOPLEX_VERIF_FRIEND
+
+#endif
+
+/* site numbers */
+#define SOPLEX_VERIF_SITE_ENTER_PIVOT       1
+#define SOPLEX_VERIF_SITE_LEAVE_PIVOT       2
+#define SOPLEX_VERIF_SITE_REFINE_ROUND      3
+#define SOPLEX_VERIF_SITE_VERIFY_FALLBACK  10
+#define SOPLEX_VERIF_SITE_RATREC_FAIL      11
+#define SOPLEX_VERIF_SITE_NO_RESCALE       12
+
+#endif
